@@ -1,6 +1,7 @@
 #!/bin/bash
 # usage: trypart.sh <seed> <check module> <attr>  - like tryscratch.sh but runs one slice (tools/runpart.py)
+V=$(cd "$(dirname "$0")/.." && pwd)
 s=$1; d=$(mktemp -d /tmp/sr.XXXXXX); rsync -a --exclude _build --exclude .git /repo/ $d/
-(cd $d && patch -p1 -s < /verif/seeded/$s/patch.diff) || { echo PATCHFAIL; rm -rf $d; exit 9; }
-cd /verif; VERIF_REPO=$d timeout 1800 python3 tools/runpart.py $2 $3 2>&1 | grep -E "VIOLATIONS|DRIFT|rror" | cut -c1-400
+(cd $d && patch -p1 -s < $V/seeded/$s/patch.diff) || { echo PATCHFAIL; rm -rf $d; exit 9; }
+cd $V; VERIF_REPO=$d timeout 1800 python3 tools/runpart.py $2 $3 2>&1 | grep -E "VIOLATIONS|DRIFT|rror" | cut -c1-400
 rm -rf $d
